@@ -101,7 +101,7 @@ fn vault_stream(
                             let id: SecretId = row.identifier().parse()?;
                             let commit = CommitHash(row.commit().try_into()?);
                             let meta_bytes = row.meta_bytes();
-                            let secret_bytes = row.meta_bytes();
+                            let secret_bytes = row.secret_bytes();
                             let mut buffer = Vec::with_capacity(
                                 meta_bytes.len() + secret_bytes.len(),
                             );
